@@ -100,6 +100,7 @@ func runC10(c *ShardCtx) {
 						ra := a.Run(in, &oa, sc)
 						rb := b.Run(in, &ob, sc)
 						c.Res.Evaluations++
+						c.ConfSample(20011, 2, text, y, b, in, ob, sc, rb)
 						if len(ra.Log) > 0 || len(ra.Errs) > 0 {
 							c.Res.Nontrivial++
 						}
